@@ -11,6 +11,7 @@ import (
 
 	"github.com/shirou/gopsutil/mem"
 	"github.com/youzan/ZanRedisDB/common"
+	"github.com/youzan/ZanRedisDB/internal/verifhook"
 	"github.com/youzan/gorocksdb"
 )
 
@@ -628,6 +629,7 @@ func (rck *rockEngCheckpoint) Save(path string, notify chan struct{}) error {
 				close(notify)
 			})
 		}
+		verifhook.Crash("ckpt.engine_begin")
 		return rck.ck.Save(path, math.MaxUint64)
 	}
 	return errDBEngClosed
